@@ -54,9 +54,9 @@ def filters(prog, rep, tag):
             good |= q.feasible_after(b, s_, equal=not equal_is_bad)
         return bad - good
 
-    if et_sites and lk[0].bb in b.reachable_from(0, avoid={s_[4] for s_ in et_sites} | rejecting_only(src_sites, True)):
+    if et_sites and lk[0].bb in q.feasible_from_entry(b, avoid={s_[4] for s_ in et_sites} | rejecting_only(src_sites, True)):
         et_ok = False
-    if src_sites and lk[0].bb in b.reachable_from(0, avoid={s_[4] for s_ in src_sites} | rejecting_only(et_sites, False)):
+    if src_sites and lk[0].bb in q.feasible_from_entry(b, avoid={s_[4] for s_ in src_sites} | rejecting_only(et_sites, False)):
         src_ok = False
     rep.ob(P, "ethertype" + tag, et_ok and ethertype == 0x88A4, "the slot lookup is reached only where ethertype == ETHERCAT_ETHERTYPE (= %#x)" % ethertype, loc=b.span)
     rep.ob(P, "own-source" + tag, src_ok, "the slot lookup is reached only where the source address differs from self.source_mac", loc=b.span)
